@@ -22,6 +22,7 @@ use serde_json::{json, Value};
 use std::collections::{BTreeMap, HashMap};
 use std::io::{BufRead, Write};
 use std::panic::{catch_unwind, resume_unwind, AssertUnwindSafe};
+use std::sync::atomic::{AtomicBool, AtomicUsize, Ordering};
 
 // ------------------------------------------------------------------ operations
 
@@ -458,6 +459,20 @@ impl Owner for SliceRefOwner {
     }
 }
 
+thread_local! {
+    static PANIC_LOC: std::cell::RefCell<String> = std::cell::RefCell::new(String::new());
+}
+/// silent panic hook that remembers the location per thread
+fn install_panic_hook() {
+    std::panic::set_hook(Box::new(|info| {
+        let loc = info.location().map(|l| format!("{}:{}", l.file(), l.line())).unwrap_or_default();
+        PANIC_LOC.with(|c| *c.borrow_mut() = loc);
+    }));
+}
+fn last_panic_location() -> String {
+    PANIC_LOC.with(|c| c.borrow().clone())
+}
+
 fn panic_text(p: &Box<dyn std::any::Any + Send>) -> String {
     if let Some(s) = p.downcast_ref::<&str>() {
         s.to_string()
@@ -495,7 +510,7 @@ fn top_loop(cx: &mut Cx, owner: &mut dyn Owner) -> bool {
                             cx.events[i].1["own"] = json!(owner.own());
                         } else {
                             let a = cx.current.take().unwrap_or(act);
-                            cx.events.push((a, json!({"r":"panic","msg":panic_text(&p),"loc":vh_common::last_panic_location()})));
+                            cx.events.push((a, json!({"r":"panic","msg":panic_text(&p),"loc":last_panic_location()})));
                             return false;
                         }
                     }
@@ -507,7 +522,7 @@ fn top_loop(cx: &mut Cx, owner: &mut dyn Owner) -> bool {
                 match r {
                     Ok(data) => cx.events.push((act, json!({"r":"ok","data":data,"olen":owner.olen(),"own":owner.own()}))),
                     Err(p) => {
-                        cx.events.push((act, json!({"r":"panic","msg":panic_text(&p),"loc":vh_common::last_panic_location()})));
+                        cx.events.push((act, json!({"r":"panic","msg":panic_text(&p),"loc":last_panic_location()})));
                         return false;
                     }
                 }
@@ -669,7 +684,7 @@ struct Walk<'g> {
     depth: usize,
     paths: u64,
     steps: u64,
-    covered: Vec<Vec<bool>>,
+    covered: &'g Vec<Vec<AtomicBool>>,
     covered_n: u64,
     mismatch_count: u64,
     mismatch_keys: BTreeMap<String, u64>,
@@ -679,7 +694,8 @@ struct Walk<'g> {
     drifts: Vec<Value>,
     samples: Vec<Value>,
     report: usize,
-    cover_out: Option<std::io::BufWriter<std::fs::File>>,
+    want_cover: bool,
+    cover_out: Vec<String>,
     cover_plans: u64,
     maximal: u64,
     nontrivial: u64,
@@ -721,17 +737,14 @@ impl<'g> Walk<'g> {
         {
             let mut new = false;
             for (s, j) in &full {
-                if !self.covered[*s][*j] {
-                    self.covered[*s][*j] = true;
+                if !self.covered[*s][*j].swap(true, Ordering::Relaxed) {
                     self.covered_n += 1;
                     new = true;
                 }
             }
-            if new {
-                if let Some(w) = self.cover_out.as_mut() {
-                    let _ = writeln!(w, "{}", Value::Array(plan_json.clone()));
-                    self.cover_plans += 1;
-                }
+            if new && self.want_cover {
+                self.cover_out.push(Value::Array(plan_json.clone()).to_string());
+                self.cover_plans += 1;
             }
         }
         if self.samples.len() < 3 && full.len() >= 5 && (self.paths % 97 == 1) {
@@ -846,12 +859,18 @@ fn cmd_graph(args: &[String]) {
     let mut depth = 4usize;
     let mut report = 40usize;
     let mut cover: Option<String> = None;
+    let mut threads = 1usize;
+    let mut max_paths = u64::MAX;
+    let mut count_only = false;
     let mut i = 0;
     while i < args.len() {
         match args[i].as_str() {
             "--depth" => { depth = args[i + 1].parse().unwrap(); i += 1; }
             "--report" => { report = args[i + 1].parse().unwrap(); i += 1; }
             "--cover" => { cover = Some(args[i + 1].clone()); i += 1; }
+            "--threads" => { threads = args[i + 1].parse().unwrap(); i += 1; }
+            "--max-paths" => { max_paths = args[i + 1].parse().unwrap(); i += 1; }
+            "--count" => { count_only = true; }
             _ => {}
         }
         i += 1;
@@ -889,32 +908,131 @@ fn cmd_graph(args: &[String]) {
     let idle = (0..g.edges.len()).find(|i| g.phase[*i] == 0);
     let mut summary = json!({"states": g.edges.len(), "edges": nedges, "tlc_tail": tlc_tail});
     if let Some(idle) = idle {
-        let covered = g.edges.iter().map(|e| vec![false; e.len()]).collect();
+        let covered: Vec<Vec<AtomicBool>> = g.edges.iter().map(|e| e.iter().map(|_| AtomicBool::new(false)).collect()).collect();
         let det_edges: u64 = g.edges.iter().map(|e| e.iter().filter(|x| x.det).count() as u64).sum();
-        let cover_out = cover.as_ref().map(|p| std::io::BufWriter::new(std::fs::File::create(p).expect("cover file")));
-        let mut w = Walk {
-            g: &g, depth, paths: 0, steps: 0, covered, covered_n: 0, mismatch_count: 0,
-            mismatch_keys: BTreeMap::new(), mismatches: Vec::new(), drift_count: 0, drift_keys: BTreeMap::new(),
-            drifts: Vec::new(), samples: Vec::new(), report, cover_out, cover_plans: 0, maximal: 0, nontrivial: 0,
-        };
-        let mut path = Vec::new();
-        w.dfs(idle, 0, &mut path);
-        if let Some(mut c) = w.cover_out.take() { let _ = c.flush(); }
+        // number of paths the walk will execute (one per path prefix)
+        let mut memo: HashMap<(usize, usize), u64> = HashMap::new();
+        fn count(g: &Graph, node: usize, d: usize, depth: usize, memo: &mut HashMap<(usize, usize), u64>) -> u64 {
+            if let Some(c) = memo.get(&(node, d)) {
+                return *c;
+            }
+            let ph = g.phase[node];
+            let mut c: u64 = if ph != 0 { 1 } else { 0 };
+            if d < depth || ph == 0 {
+                for e in g.edges[node].iter().filter(|e| e.det && e.act["a"] != "final") {
+                    c = c.saturating_add(count(g, e.to, if ph == 0 { 0 } else { d + 1 }, depth, memo));
+                }
+            }
+            memo.insert((node, d), c);
+            c
+        }
+        let planned = count(&g, idle, 0, depth, &mut memo);
+        summary["planned_paths"] = json!(planned);
         summary["depth"] = json!(depth);
         summary["det_edges"] = json!(det_edges);
-        summary["paths"] = json!(w.paths);
-        summary["maximal_paths"] = json!(w.maximal);
-        summary["nontrivial_paths"] = json!(w.nontrivial);
-        summary["steps"] = json!(w.steps);
-        summary["edges_covered"] = json!(w.covered_n);
-        summary["cover_plans"] = json!(w.cover_plans);
-        summary["mismatch_count"] = json!(w.mismatch_count);
-        summary["mismatch_keys"] = json!(w.mismatch_keys);
-        summary["mismatches"] = json!(w.mismatches);
-        summary["drift_count"] = json!(w.drift_count);
-        summary["drift_keys"] = json!(w.drift_keys);
-        summary["drifts"] = json!(w.drifts);
-        summary["samples"] = json!(w.samples);
+        if count_only || planned > max_paths {
+            if planned > max_paths {
+                summary["error"] = json!(format!("{} paths planned, more than --max-paths {}", planned, max_paths));
+            }
+            println!("{}", summary);
+            return;
+        }
+        // tasks: (setup edge, first operation edge or none)
+        let mut tasks: Vec<Vec<(usize, usize)>> = Vec::new();
+        for (j, e) in g.edges[idle].iter().enumerate() {
+            if !e.det {
+                continue;
+            }
+            tasks.push(vec![(idle, j)]); // the run with no operation at all
+            for (k, e2) in g.edges[e.to].iter().enumerate() {
+                if e2.det && e2.act["a"] != "final" && depth >= 1 {
+                    tasks.push(vec![(idle, j), (e.to, k)]);
+                }
+            }
+        }
+        let next = AtomicUsize::new(0);
+        let want_cover = cover.is_some();
+        let gref = &g;
+        let cref = &covered;
+        let tref = &tasks;
+        let nref = &next;
+        let mut walks: Vec<Walk> = Vec::new();
+        std::thread::scope(|sc| {
+            let hs: Vec<_> = (0..threads.max(1))
+                .map(|_| {
+                    sc.spawn(move || {
+                        let mut w = Walk {
+                            g: gref, depth, paths: 0, steps: 0, covered: cref, covered_n: 0, mismatch_count: 0,
+                            mismatch_keys: BTreeMap::new(), mismatches: Vec::new(), drift_count: 0, drift_keys: BTreeMap::new(),
+                            drifts: Vec::new(), samples: Vec::new(), report, want_cover, cover_out: Vec::new(), cover_plans: 0,
+                            maximal: 0, nontrivial: 0,
+                        };
+                        loop {
+                            let t = nref.fetch_add(1, Ordering::Relaxed);
+                            if t >= tref.len() {
+                                break;
+                            }
+                            let mut path = tref[t].clone();
+                            let (n, j) = *path.last().unwrap();
+                            let end = gref.edges[n][j].to;
+                            if path.len() == 1 {
+                                w.run_path(&path, end, depth == 0);
+                            } else {
+                                w.dfs(end, 1, &mut path);
+                            }
+                        }
+                        w
+                    })
+                })
+                .collect();
+            for h in hs {
+                walks.push(h.join().expect("walker thread"));
+            }
+        });
+        let mut paths = 0u64; let mut maximal = 0u64; let mut nontrivial = 0u64; let mut steps = 0u64;
+        let mut covered_n = 0u64; let mut cover_plans = 0u64; let mut mismatch_count = 0u64; let mut drift_count = 0u64;
+        let mut mismatch_keys: BTreeMap<String, u64> = BTreeMap::new();
+        let mut drift_keys: BTreeMap<String, u64> = BTreeMap::new();
+        let mut mismatches: Vec<Value> = Vec::new();
+        let mut drifts: Vec<Value> = Vec::new();
+        let mut samples: Vec<Value> = Vec::new();
+        let mut cover_file = cover.as_ref().map(|p| std::io::BufWriter::new(std::fs::File::create(p).expect("cover file")));
+        for w in walks {
+            paths += w.paths; maximal += w.maximal; nontrivial += w.nontrivial; steps += w.steps;
+            covered_n += w.covered_n; cover_plans += w.cover_plans; mismatch_count += w.mismatch_count; drift_count += w.drift_count;
+            for (k, v) in w.mismatch_keys { *mismatch_keys.entry(k).or_insert(0) += v; }
+            for (k, v) in w.drift_keys { *drift_keys.entry(k).or_insert(0) += v; }
+            for m in w.mismatches {
+                match mismatches.iter_mut().find(|x| x["key"] == m["key"]) {
+                    Some(x) => {
+                        if x["plan"].as_array().map(|p| p.len()).unwrap_or(0) > m["plan"].as_array().map(|p| p.len()).unwrap_or(0) {
+                            *x = m;
+                        }
+                    }
+                    None => mismatches.push(m),
+                }
+            }
+            for d in w.drifts { if drifts.len() < 6 { drifts.push(d); } }
+            for x in w.samples { if samples.len() < 3 { samples.push(x); } }
+            if let Some(f) = cover_file.as_mut() {
+                for l in w.cover_out { let _ = writeln!(f, "{}", l); }
+            }
+        }
+        if let Some(mut f) = cover_file.take() { let _ = f.flush(); }
+        mismatches.truncate(report);
+        summary["paths"] = json!(paths);
+        summary["maximal_paths"] = json!(maximal);
+        summary["nontrivial_paths"] = json!(nontrivial);
+        summary["steps"] = json!(steps);
+        summary["edges_covered"] = json!(covered_n);
+        summary["cover_plans"] = json!(cover_plans);
+        summary["mismatch_count"] = json!(mismatch_count);
+        summary["mismatch_keys"] = json!(mismatch_keys);
+        summary["mismatches"] = json!(mismatches);
+        summary["drift_count"] = json!(drift_count);
+        summary["drift_keys"] = json!(drift_keys);
+        summary["drifts"] = json!(drifts);
+        summary["samples"] = json!(samples);
     } else {
         summary["error"] = json!("no idle state in the export");
     }
@@ -1017,7 +1135,7 @@ fn cmd_drive(args: &[String]) {
 }
 
 fn main() {
-    vh_common::quiet_panics();
+    install_panic_hook();
     let args: Vec<String> = std::env::args().collect();
     match args.get(1).map(|s| s.as_str()) {
         Some("graph") => cmd_graph(&args[2..]),
